@@ -184,8 +184,9 @@ class Gen:
                 ta, tb = self.theta(), self.theta()
                 a = ["add", C(self.rng.uniform(0.4, 0.8)), ta]
                 b = ["add", C(self.rng.uniform(0.4, 0.8)), ["mul", tb, tb]]
-                c = ["mul", C(self.rng.uniform(-0.5, 0.5)), self.theta()]  # |c| <= 0.4 < sqrt(0.4*0.4)
-                c = ["mul", C(0.9), c]
+                # |c| <= 0.6*0.5*0.95 = 0.285 < sqrt(a*b) >= sqrt(0.45*0.4): always positive definite
+                c = ["mul", C(self.rng.uniform(-0.5, 0.5)), self.theta()]
+                c = ["mul", C(0.6), c]
                 cov = [a, c, b]
             s["args"] = [[self.loc(), self.loc()], cov]
         elif kind == "uniform":
@@ -244,7 +245,7 @@ def gen_program(rng, arm, single, avoid=()):
         before, after = extra[:pos], extra[pos:]
         if opt.get("guarded") and not any(k in R.BOOL_KINDS for k in before):
             # a bool site must precede the guarded focus
-            bk = [k for k in pool if k in R.BOOL_KINDS] or ["flip_enum"]
+            bk = [k for k in pool if k in R.BOOL_KINDS and k != "flip_mvd"] or ["flip_enum"]
             before.insert(0, g.pick(bk))
         if focus == "flip_mvd":
             before, after = before + after, []  # its pure continuation cannot contain sample sites
@@ -319,7 +320,10 @@ def structure(prog):
         for i in range(len(sites))
     )
     guarded = any(s.get("guard") is not None for s in sites)
+    mvd = [i for i, s in enumerate(sites) if s["kind"] == "flip_mvd"]
+    after_mvd = bool(mvd) and (any(c[0] > mvd[0] for c in prog.get("costs", [])) or mvd[0] < len(sites) - 1)
     return {
+        "after_mvd": bool(after_mvd),
         "n_sites": len(sites),
         "after_tailcall": bool(after_tail),
         "after_cond_site": bool(after_cond),
@@ -329,6 +333,8 @@ def structure(prog):
 
 def struct_class(prog, stat):
     st = structure(prog)
+    if stat and st["after_mvd"]:
+        return "sample-or-cost-after-mvd"
     if stat and st["after_cond_site"]:
         return "site-after-cond-site"
     if stat and st["after_tailcall"]:
